@@ -542,9 +542,20 @@ func ruleCMP3(c *Ctx) {
 			c.fail("vm/"+spec.op, cc, "arm is not `if left.Equals(right) { push X } else { push Y }`")
 			continue
 		}
-		call, ok := ast.Unparen(is.Cond).(*ast.CallExpr)
+		// `if !a.Equals(b) { X } else { Y }` is `if a.Equals(b) { Y } else { X }`
+		cond := ast.Unparen(is.Cond)
+		negated := false
+		for {
+			u, ok := cond.(*ast.UnaryExpr)
+			if !ok || u.Op != token.NOT {
+				break
+			}
+			negated = !negated
+			cond = ast.Unparen(u.X)
+		}
+		call, ok := cond.(*ast.CallExpr)
 		if !ok {
-			c.fail("vm/"+spec.op, cc, "condition is not a direct call of Equals (a negation or extra clause changes the law): "+w.Src(is.Cond))
+			c.fail("vm/"+spec.op, cc, "condition is not a call of Equals, possibly negated (an extra clause changes the law): "+w.Src(is.Cond))
 			continue
 		}
 		fn := Callee(p, call)
@@ -593,8 +604,12 @@ func ruleCMP3(c *Ctx) {
 			})
 			return res
 		}
-		if pushed(is.Body) != spec.thenV || pushed(is.Else) != spec.elseV {
-			probs = append(probs, fmt.Sprintf("pushes %s/%s for equal/unequal, expected %s/%s", pushed(is.Body), pushed(is.Else), spec.thenV, spec.elseV))
+		whenEq, whenNe := pushed(is.Body), pushed(is.Else)
+		if negated {
+			whenEq, whenNe = whenNe, whenEq
+		}
+		if whenEq != spec.thenV || whenNe != spec.elseV {
+			probs = append(probs, fmt.Sprintf("pushes %s/%s for equal/unequal, expected %s/%s", whenEq, whenNe, spec.thenV, spec.elseV))
 		}
 		c.check(len(probs) == 0, "vm/"+spec.op, cc, "left.Equals(right) → "+spec.thenV+" else "+spec.elseV, strings.Join(probs, "; "))
 	}
